@@ -365,7 +365,7 @@ LEVEL_TEXT = ("Theorems over the model, for every width w (unbounded, by inducti
               "the carry bit for both carry options; mux(w) outputs in_i for i = value of the select lines and 0 for i >= w; popcount(w) outputs "
               "the binary count of ones; half/full adder; clog2 = ceil(log2), ValueError below 1, fuel never exhausted; "
               "bin_to_int(int_to_bin(i,w,lend),lend) = i for every i (the code never truncates) with exactly w entries when i < 2^w; "
-              "adder, mux and popcount are lint-clean for every width. The model equals what the generators return (graph equality) on "
+              "adder, mux and popcount are lint-clean, closed, acyclic and have exactly the named inputs as free nodes for every width. The model equals what the generators return (graph equality) on "
               "every generated width (up to 64 in the thorough tier); independently the Coq oracle evaluates the arithmetic specification "
               "on the returned circuits for all input vectors (small widths) and lints them.")
 LEVEL_NOTE = ("No statement is partial. Error branches modelled and checked: clog2(n<1) and mux(0) raise ValueError, popcount(0) IndexError, "
